@@ -48,7 +48,11 @@ class ForkInstalled:
                 if tsh._Capture.log is not None:
                     tsh._Capture.log.append('e%d' % code)
                 raise tsh.E.ScriptExecutionError('soft fork check failed')
-        tsh.T.add_soft_fork(code, 'OP_VERIFFORK', fork_op, list(self.aliases))
+        # the aliases in every shape an embedder may hand them over in (the shape follows the code, so every run sees all of them)
+        al = list(self.aliases)
+        shape = (lambda x: list(x), lambda x: tuple(x), lambda x: iter(list(x)), lambda x: (a_ for a_ in list(x)),
+                 lambda x: map(str, list(x)), lambda x: dict.fromkeys(x).keys())[code % 6]
+        tsh.T.add_soft_fork(code, 'OP_VERIFFORK', fork_op, shape(al))
         return self
 
     def __exit__(self, *a):
